@@ -229,6 +229,15 @@ ASSUME = ['Sphinx ISA as reconstructed (A1) - validated against the 52 upstream 
           'TLC, SANY, CommunityModules']
 
 
+MUST_FINISH = ('tt_', 'exit_', 'misc_', 'eval_order', 'computed_casts', 'fold:', 'fault:', 'op:', 'write_bool', 'write_string',
+               'write_int_constants', 'write_byte', 'write_empty_arrays', 'write_long_string', 'expr_trees', 'bool_structure')
+
+
+def _must_finish(it):
+    f = it.meta.get('family', '')
+    return f.startswith(MUST_FINISH) and not f.endswith(':unchecked') and 'vla_len' not in f and not it.meta.get('allow_exhausted')
+
+
 def standard(prop, tier, seed, items, rule, t0, kinds=None, allow_exhausted=False, presize_limit=None, max_level=None,
              extra_violations=(), extra_cov=None, monitors=True, postfilter=None, assumptions=()):
     """Common tail of the run-time checks: size, run under TLC, judge, write evidence."""
@@ -246,6 +255,32 @@ def standard(prop, tier, seed, items, rule, t0, kinds=None, allow_exhausted=Fals
         vs += one
     if kinds is not None:
         vs = [v for v in vs if v.classifier['kind'] in kinds]
+    # hand-written families finish within 3 000 machine steps on a correct tree (largest: 2 938).  One of their cases
+    # that the fast VM cannot finish, or that TLC cuts at the fuel bound, is given to TLC alone with a bound ten times
+    # that: still no terminal state = the compiled program does not terminate (or takes ten times longer) - a violation
+    # of whatever run-time property is being checked, decided by TLC
+    late = [it for it in items if _must_finish(it) and not it.unchecked and
+            ((it.skip or '').startswith('too long') or (not it.skip and it.result is None))]
+    for it in late[:6]:
+        it.skip = None
+        sub = Stats()
+        old_par = os.environ.get('HV_PAR')
+        os.environ['HV_PAR'] = '1'
+        try:
+            run([it], sub, monitors=monitors, max_level=30000, timeout=900, _retry=False)
+        finally:
+            os.environ.pop('HV_PAR', None) if old_par is None else os.environ.__setitem__('HV_PAR', old_par)
+        if it.result is None:
+            v = common.Violation(prop, 'no terminal state within 30000 machine steps in %s args=%s w=%d s=%d' % (it.meta.get('family'), it.args, it.w, it.s),
+                                 classifier={'kind': 'no_terminal_state', 'family': it.meta.get('family', ''), 'w': it.w},
+                                 detail={'source': it.src, 'args': it.args, 'w': it.w, 's': it.s, 'unchecked': it.unchecked, 'options': it.opt})
+            if kinds is None or 'real_halt' not in kinds:
+                vs.append(v)
+        else:
+            st.cases += 1
+            st.classes[it.result['cls']] += 1
+            one = violations(prop, [it], allow_exhausted=allow_exhausted or it.meta.get('allow_exhausted', False))
+            vs += one if kinds is None else [v for v in one if v.classifier['kind'] in kinds]
     # output the assembler rejects, or an internal exception of the compiler, on a program of these families
     # (all well-typed by construction) is a violation in its own right: nothing can be "computed as the source says"
     seen_bad = set()
